@@ -304,6 +304,11 @@ def encoding(
             logger.debug("gamma %s", gamma)
             logger.debug("vSums %s", vSums[index])
             logger.debug("fSums %s", fSums[index])
+        if vSums[index] and not fSums[index]:
+            # No world falsifies this conditional, so every ranking in which it can be
+            # verified accepts it; its parameters are unconstrained. (A minimum over
+            # the empty set of falsifying worlds would make the CSP unsatisfiable.)
+            continue
         mv, mf = freshVars(index)
         vMin = minima_encoding(mv, vSums[index])
         fMin = minima_encoding(mf, fSums[index])
